@@ -73,6 +73,11 @@ type input struct {
 	// file: readers that registered in different orders must agree.  Set by the parent
 	// for each sub-process; never part of a generated input.
 	RegOrder string `json:"reg_order,omitempty"`
+	// Resolver: the host-name resolver of THIS process (network's lookupHost, set through
+	// the verif export of the network package): "" the system's, "a" / "b" resolve every
+	// name to one fixed (different) address, "fail" resolves nothing.  What a reader
+	// returns for a file must not depend on it.  Set by the parent per sub-process.
+	Resolver string `json:"resolver,omitempty"`
 }
 
 // ---------------------------------------------------------------- keys
@@ -634,6 +639,17 @@ func rosterFileObs(in *input, dir string, n int) observation {
 	return observation{Parses: reads.list()}
 }
 
+func installResolver(kind string) {
+	switch kind {
+	case "a":
+		network.VerifC20SetLookupHost(func(string) ([]string, error) { return []string{"192.0.2.1"}, nil })
+	case "b":
+		network.VerifC20SetLookupHost(func(string) ([]string, error) { return []string{"198.51.100.7", "192.0.2.1"}, nil })
+	case "fail":
+		network.VerifC20SetLookupHost(func(h string) ([]string, error) { return nil, fmt.Errorf("no such host %s", h) })
+	}
+}
+
 func childMain() {
 	raw, err := ioutil.ReadAll(os.Stdin)
 	if err != nil {
@@ -643,6 +659,7 @@ func childMain() {
 	if err := json.Unmarshal(raw, &in); err != nil {
 		os.Exit(3)
 	}
+	installResolver(in.Resolver)
 	dir, err := ioutil.TempDir("", "verif-c18-child")
 	if err != nil {
 		os.Exit(3)
@@ -954,9 +971,10 @@ func run(raw json.RawMessage) lib.Case {
 		parses.add(r)
 	}
 	// fresh processes that registered the services in other orders than this one
-	for _, ord := range []string{"reverse", "byname-desc", "rotate"} {
+	for k, ord := range []string{"reverse", "byname-desc", "rotate"} {
 		child := in
 		child.RegOrder = ord
+		child.Resolver = []string{"a", "b", "fail"}[k]
 		craw, _ := json.Marshal(child)
 		f := freshProcess(craw)
 		for _, r := range f.Parses {
@@ -1080,7 +1098,7 @@ func main() {
 		Prop:   "C18",
 		Import: "Onet.Corr.C18",
 		Rule: "one evaluation = one generated private.toml / group.toml: printed with its service entries in two orders, each text parsed `parses` times by the real readers " +
-			"in-process and 2 x 4 times in each of three fresh sub-processes that registered the services in other orders (reverse, by name descending, rotated), the first result written back by the real writer to a new path and over a longer and a shorter previous file, and re-read; " +
+			"in-process and 2 x 4 times in each of three fresh sub-processes that registered the services in other orders (reverse, by name descending, rotated) and run with other host-name resolvers (two fixed answers, one that fails), the first result written back by the real writer to a new path and over a longer and a shorter previous file, and re-read; " +
 			"the observation is the set of distinct results; non-trivial = at least one server",
 		Shard:    12,
 		Generate: generate,
